@@ -2,7 +2,7 @@
    oracles given as finite tables (values computed by the real Python/csv/yaml), and
    ASCII-only rendering of results (one line per case).  No proofs. *)
 From Coq Require Import String Ascii List ZArith Bool NArith DecimalString.
-From PV Require Import Model_scsv Model_scsv_frame.
+From PV Require Import Model_scsv Model_scsv_frame Model_scsv_header.
 Import ListNotations.
 Open Scope string_scope.
 
@@ -151,3 +151,15 @@ Definition run_file (t : tables) (lines : list string) (ytab : list (list string
   ++ "|N:" ++ zstr (Z.of_nat (length (fst yc))) ++ "," ++ zstr (Z.of_nat (length (snd yc))).
 
 Definition run_terse (x : string) : string := "T:" ++ show_res show_schema (parse_terse x).
+
+(* the header block write_scsv_header emits for this schema (lines without terminators) *)
+Definition show_lines (ls : list string) : string := join "," (map (fun l => "S" ++ hex l) ls).
+Definition run_rt_h (t : tables) (s : schema) (y : yres) (data : list (list cell))
+           (comments : list string) (units : list (option string)) : string :=
+  run_rt t s y data ++ "|L:" ++ show_res show_lines (header_lines (oracles_of t) comments s units).
+
+(* _yaml_quote(x), and what the single-quoted scanner makes of a text *)
+Definition run_quote (x : string) : string :=
+  "Q:" ++ hex (yaml_quote x) ++ "|U:" ++ match yaml_unquote (yaml_quote x) with Some y => "S" ++ hex y | None => "-" end.
+Definition run_unquote (x : string) : string :=
+  "U:" ++ match yaml_unquote x with Some y => "S" ++ hex y | None => "-" end.
